@@ -26,7 +26,8 @@ SPEC = {
                          "dfs:range:u64:t3:n2:*:complete", "dfs:range:i32:*", "sampled:range:t8:*", "sampled:multi:*",
                          "tsan:stress:range:*", "tsan:stress:blocks:*", "tsan:stress:multi:*", "tsan:stress:narrow:u16:*:over-half-span",
                          "tsan:stress:narrow:u8:*", "tsan:stress:narrow:i16:*", "tsan:stress:*:tdefault:*",
-                         "tsan:stress:range:*:over-64K", "dfs:blocks:u64:t0:n0:*", "dfs:multi:u64:t0:*"],
+                         "tsan:stress:range:*:over-64K", "dfs:blocks:u64:t0:n0:*", "dfs:multi:u64:t0:*",
+                         "tsan:stress:huge-blocks:*", "tsan:stress:2^32-range:default-threads"],
     "exhaustive": {"quick": False, "thorough": False},
     "exhaustive_note": "complete DFS (all interleavings of atomic-operation steps) for: 1-2 threads x ranges 0..4 x all 2^n truth "
                        "assignments x {range, blocks bs|n, multi}; 3 threads x ranges 0..2 (quick) / 0..3 (thorough); i32/u8 cursor "
